@@ -66,6 +66,8 @@ def lemma_obligations(eng, names):
                 nv = vs[lm.induction][0]
                 base = T.substitute(goal, {nv[1]: T.ZERO})
                 step = T.implies(T.and_(T.le(T.ZERO, nv), goal), T.substitute(goal, {nv[1]: T.add(nv, T.ONE)}))
+                run.unfold_in(base)
+                run.unfold_in(step)
                 for tag, g in (('base', base), ('step', step)):
                     o = Obligation('spec.%s/lemma#1:%s' % (name, tag), 'lemma', 'lemmas', lm.text, lm.src, len(run.hyps), g)
                     run.obls.append(o)
